@@ -175,6 +175,12 @@ func cmdCheck(args []string) int {
 	knownHit := map[string]bool{}
 	reported := map[string]bool{}
 	replayDir := filepath.Join(o.verif, "replays")
+	if o.scratch {
+		if td, err := os.MkdirTemp("", "govc-scratch-replays-"); err == nil {
+			replayDir = td
+			defer os.RemoveAll(td)
+		}
+	}
 	if old, _ := filepath.Glob(filepath.Join(replayDir, o.prop+"_*")); len(old) > 0 {
 		for _, f := range old {
 			os.Remove(f)
@@ -322,10 +328,26 @@ func cmdCheck(args []string) int {
 			cov["not_decided"] = undecided
 		}
 	}
+	selftestFailed := false
+	if o.tier == "thorough" && !o.scratch {
+		corpus := runCorpus(o)
+		cov["must_fail_corpus"] = corpus
+		for _, c := range corpus {
+			if c["applies"] == true && c["detected"] != true {
+				selftestFailed = true
+				fmt.Printf("SELFTEST-FAILED property=%s seeded change %v is not reported by this check\n", o.prop, c["seed"])
+			}
+		}
+	}
 	ev := evidence{PropertyID: o.prop, Tier: o.tier, Seed: seed, Level: level, Coverage: cov, Assumptions: assumptionsFor(o.prop, tb), WallS: time.Since(t0).Seconds(), Violations: violations}
-	if err := writeJSON(filepath.Join(o.verif, "evidence", o.prop+".json"), ev); err != nil {
-		fmt.Fprintln(os.Stderr, "govc: cannot write evidence:", err)
-		return 2
+	if !o.scratch {
+		if err := writeJSON(filepath.Join(o.verif, "evidence", o.prop+".json"), ev); err != nil {
+			fmt.Fprintln(os.Stderr, "govc: cannot write evidence:", err)
+			return 2
+		}
+	}
+	if selftestFailed && violations == 0 {
+		defer os.Exit(2)
 	}
 	fmt.Printf("property %s: %d/%d obligations discharged (%d path queries, %d functions, %.1fs load, %.1fs solve); violations=%d known=%d\n",
 		o.prop, discharged, total, len(all), len(funcs), out.loadS, solveS, violations, len(openFindings))
@@ -460,6 +482,64 @@ func runStandins(o *options) []map[string]any {
 		} else {
 			res["output"] = trunc(string(b), 1000)
 		}
+		out = append(out, res)
+	}
+	return out
+}
+
+
+// runCorpus: the must-fail corpus of the thorough tier. Every kept seeded change of this property
+// (/verif/seeded/<prop>-n/patch.diff) is applied to a scratch copy of the repository's working tree (outside /repo and
+// /verif, removed afterwards) and the quick check is run on that copy; the change must be reported. A patch that no
+// longer applies (the tree moved on) is recorded as such and not counted.
+func runCorpus(o *options) []map[string]any {
+	var out []map[string]any
+	dirs, _ := filepath.Glob(filepath.Join(o.verif, "seeded", o.prop+"-*"))
+	sort.Strings(dirs)
+	self, _ := os.Executable()
+	for _, d := range dirs {
+		patch := filepath.Join(d, "patch.diff")
+		if _, err := os.Stat(patch); err != nil {
+			continue
+		}
+		res := map[string]any{"seed": filepath.Base(d)}
+		tmp, err := os.MkdirTemp("", "govc-corpus-")
+		if err != nil {
+			res["error"] = err.Error()
+			out = append(out, res)
+			continue
+		}
+		func() {
+			defer os.RemoveAll(tmp)
+			if b, err := exec.Command("rsync", "-a", "--exclude", ".git", o.repo+"/", tmp+"/").CombinedOutput(); err != nil {
+				res["error"] = "copy: " + string(b)
+				return
+			}
+			ap := exec.Command("git", "apply", patch)
+			ap.Dir = tmp
+			if b, err := ap.CombinedOutput(); err != nil {
+				res["applies"] = false
+				res["note"] = "patch does not apply to the current tree: " + trunc(string(b), 200)
+				return
+			}
+			res["applies"] = true
+			cmd := exec.Command(self, "check", "-property", o.prop, "-tier", "quick", "-repo", tmp, "-verif", o.verif, "-scratch")
+			cmd.Env = append(os.Environ(), "GOFLAGS=-mod=mod", "GOPROXY=off", "GOSUMDB=off", "GOTOOLCHAIN=local")
+			b, _ := cmd.CombinedOutput()
+			txt := string(b)
+			res["detected"] = strings.Contains(txt, "VIOLATION property="+o.prop)
+			var by []string
+			for _, ln := range strings.Split(txt, "\n") {
+				ln = strings.TrimSpace(ln)
+				if strings.HasPrefix(ln, "obligation") || strings.HasPrefix(ln, "UNBOUND") {
+					by = append(by, trunc(ln, 200))
+				}
+			}
+			if len(by) > 3 {
+				by = by[:3]
+			}
+			res["reported_by"] = by
+		}()
 		out = append(out, res)
 	}
 	return out
